@@ -124,10 +124,10 @@ snapprop("C01", "other", "Texel.Properties.C01",
     extra_trusted=["SnapRoundingNoCross and OutputEdgesAreRoutedRuns are not proved"])
 
 snapprop("C04", "other", "Texel.Properties.C04",
-    ["Texel.C04.C04_output_vertex_is_input_pixel", "Texel.C04.C04_routed_vertex_is_input_pixel", "Texel.C04.C04_address_contains_vertex", "Texel.C04.C04_dedup_vertices"],
+    ["Texel.C04.C04_output_vertex_is_input_pixel", "Texel.C04.C04_routed_boundary_within_half_pixel", "Texel.C04.C04_routed_vertex_is_input_pixel", "Texel.C04.C04_address_contains_vertex", "Texel.C04.C04_dedup_vertices"],
     ["snap", FUNC],
     "partial Lean 4 proof (first clause proved at full strength on the model: every output vertex is the pixel of an input vertex, through joining, spike removal, ring splitting, cancellation, hole matching, reversal and keep) + exact half-pixel-distance and coverage oracles on every implementation answer",
-    "Partial proof + verified-oracle exploration: (a) is proved for everything snapPolygonF returns (C04_output_vertex_is_input_pixel); (b) half-pixel edge distance and (c) coverage beyond one pixel are decided per case by exact rational oracles "
+    "Partial proof + verified-oracle exploration: (a) is proved for everything snapPolygonF returns (C04_output_vertex_is_input_pixel); (b) is proved for the routed boundary of every ring, closing edge included (C04_routed_boundary_within_half_pixel: every point of every edge of joinChain(routeRing) is within half a pixel of the input ring, over Q), not through the clean-up; (b) half-pixel edge distance and (c) coverage beyond one pixel are decided per case by exact rational oracles "
     "(5 points per output edge; up to 150 locations per case). Known finding F5.",
     "The deformation/winding-parity argument behind (b),(c) is not machine-checked.",
     extra_trusted=["edge distance and coverage are explored with exact oracles, not proved"])
